@@ -894,6 +894,9 @@ def model_hits_for(ctx, mdl, st):
     return reqs
 
 
+TABW = [8, 8, 4, 1, 0, 2]
+
+
 def run_streams(ctx, rep, streams, mdl):
     # model-side parse of every line (full model pipeline: parse, then emit)
     fields_per_stream = []
@@ -937,7 +940,9 @@ def run_streams(ctx, rep, streams, mdl):
             if r["subs"] is None and r["gtype"] == "classic":
                 sep = KINDS.get(r["kind"], "")
                 pre = r["path"] + sep + (str(r["num"]) + sep if r["num"] is not None else "")
-                pok = stripped.startswith(pre) and stripped[len(pre):] == r["code"] and "\t" not in r["path"]
+                # get_code_style_sections recomputes the prefix length from path and number, on the tab-expanded raw line
+                tabw_s = TABW[si % len(TABW)]
+                pok = stripped.startswith(pre) and stripped[len(pre):] == r["code"] and ("\t" not in r["path"] or tabw_s in (0, 1))
             else:
                 pok = True
             subs = "-" if r["subs"] is None else (str(len(r["subs"])) + "".join(" %d %d" % s for s in r["subs"]))
@@ -948,7 +953,7 @@ def run_streams(ctx, rep, streams, mdl):
     jobs = []
     for si, st in enumerate(streams):
         styles = ["classic", "ripgrep"] + (["default"] if st["flavour"] == "json" and si % 3 == 0 else [])
-        tabw = [8, 8, 4, 1, 0, 2][si % 6]
+        tabw = TABW[si % len(TABW)]
         for style in styles:
             jobs.append((si, style, tabw))
     results = parallel_map(lambda j: run_stream(ctx, streams[j[0]], j[1], j[2]), jobs)
